@@ -78,7 +78,18 @@ def extra_inputs(pname, info, q, rng):
         ex['solve1_1'] = q.Y20
     if fn == 'calculate_shear':
         DMred = q.d_d_varphi[1:, 1:]
-        ex['redsolve1'] = np.insert(np.linalg.solve(DMred, q.sigma[1:]), 0, 0)
+        if info['variant'] == 'sym':
+            ex['redsolve1'] = np.insert(np.linalg.solve(DMred, q.sigma[1:]), 0, 0)
+        else:
+            avSig = sum(q.sigma * q.d_varphi_d_phi) / len(q.sigma)
+            ex['redsolve1'] = np.insert(np.linalg.solve(DMred, q.sigma[1:] - avSig), 0, 0)
+            # trapezoid weights for the abscissae append(varphi, 2 pi / nfp): sum_j y_j w_j + y_end w_end
+            xe = np.append(q.varphi, 2 * np.pi / q.nfp)
+            w = np.zeros(q.nphi + 1)
+            w[:-1] += 0.5 * np.diff(xe)
+            w[1:] += 0.5 * np.diff(xe)
+            ex['trapz_w'] = w[:-1]
+            ex['trapz_wend'] = float(w[-1])
         ex['B31c'] = 0.0
     if fn in ('Bfield_cylindrical', 'Bfield_cartesian'):
         ex['r'] = 0.07 if info['variant'] != 'r0' else 0.0
